@@ -89,8 +89,9 @@ def analyse(ctx, name, agg):
         why = None
         if d.get("kind") == "pipeline":
             if (i + 1) in bad_lines:
-                ctx.report(f"the optimizer list at the {d.get('backend')} call site is {impl[i]} but the theorems are about {model[i]}",
-                           {"stream": name, "line": i + 1, "site": d.get("backend"), "impl": impl[i], "model": model[i]})
+                # the proofs are about another composition: a proof-coverage failure, not a failing input
+                ctx.proof_failures.append(f"the optimizer list at the {d.get('backend')} call site is {impl[i]} "
+                                          f"but the theorems are about {model[i]}")
             continue
         if (i + 1) in bad_lines:
             why = "implementation differs from the proved model"
